@@ -167,3 +167,50 @@ def expected_labels(labels_at, v):
         for k in range(nv[v]):
             out.add((app, 'e%d' % (k + 1)))
     return out
+
+
+def gen_upgrade(rng, two_apps=False, with_new_model=None, max_edits=4):
+    """One single-batch upgrade V0 -> V1 over the *full* mutation space (the
+    C01 generator), optionally with a brand-new model at V1 (model creation +
+    deferred SQL).  -> History with 2 specs."""
+    from . import siglab
+    apps = ('app1', 'app2') if two_apps else ('app1',)
+    gen = E.SpecGen(rng, apps=apps, rows=True, max_models=2)
+    gen.no_callables = True
+    h = History()
+    spec0 = gen.gen_spec()
+    h.specs.append(spec0)
+    classes = S.build_models(spec0)
+    psig = S.project_sig(classes, apps_order=list(spec0))
+    ops = ['add_field'] * 5 + ['delete_field'] * 3 + ['rename_field'] * 2 + \
+        ['change_field'] * 6 + ['change_meta'] * 3
+    edits, specs, _rej = seqcase.gen_walk(
+        rng, gen, spec0, rng.randint(1, max_edits), psig, ops=ops)
+    spec1 = specs[-1]
+    if with_new_model is None:
+        with_new_model = rng.random() < 0.5
+    if with_new_model:
+        spec1 = S.clone(spec1)
+        app = rng.choice(list(apps))
+        targets = ['%s.%s' % (a, m) for a, mods in spec1.items()
+                   for m in mods]
+        fields = [['q1', {'kind': 'Integer', 'db_index': True}],
+                  ['q2', {'kind': 'Char', 'max_length': 20, 'null': True}]]
+        if targets:
+            fields.append(['q3', {'kind': 'ForeignKey', 'null': True,
+                                  'to': rng.choice(targets)}])
+        if rng.random() < 0.5:
+            fields.append(['q4', {'kind': 'ManyToMany',
+                                  'to': '%s.NewModel' % app}])
+        spec1[app]['NewModel'] = {
+            'fields': fields,
+            'meta': {'unique_together': [['q1', 'q2']]}
+            if rng.random() < 0.5 else {}}
+    h.specs.append(spec1)
+    h.steps.append(edits)
+    texts = {}
+    for i, e in enumerate(edits):
+        texts.setdefault(e['app'], []).append(
+            str(E.to_mutation(specs[i], e)))
+    h.texts.append(texts)
+    return h
